@@ -35,7 +35,7 @@ REQUIRED_BUCKETS = ["container:list", "container:numpy", "update-rejected-too-ol
                     "jump-beyond-capacity", "off-grid-update", "half-period-tie", "missing-value-written",
                     "gap-split", "eviction", "query-unaligned", "query-same-slot", "fill-value-zero", "query-index-negative",
                     "query-index-out-of-range", "at-index", "at-timestamp", "at-timestamp-unaligned", "at-gap-slot", "at-out-of-range",
-                    "moving-window", "dump-load-round-trip"]
+                    "moving-window", "dump-load-round-trip", "timestamps-in-mixed-time-zones"]
 REQUIRED_COUNTERS = ["updates_checked", "window_queries_checked", "at_queries_checked", "gap_invariant_checks"]
 ASSUMPTIONS = ["timestamps exact to the microsecond; values unique per write"]
 
@@ -80,7 +80,8 @@ def gen(rng: Any, tier: str, i: int) -> Any:
     return {"cap": cap, "period": period, "align_off": align_off, "container": rng.choice(["list", "numpy"]),
             "updates": ups, "qseed": rng.randrange(1 << 30),
             # after this many updates the buffer is dumped to disk and the re-loaded copy is used from then on
-            "reload_at": rng.choice([None, None, rng.randint(1, max(1, len(ups)))])}
+            "reload_at": rng.choice([None, None, rng.randint(1, max(1, len(ups)))]),
+            "tz_min": rng.choice([0, 0, 0, 330, -210, 345])}
 
 
 def _slot(t: F) -> int:
@@ -138,6 +139,14 @@ def check(case: dict[str, Any], rec: Any) -> None:
     cap, period = case["cap"], case["period"]
     per = timedelta(seconds=period)
     align = E + timedelta(seconds=case["align_off"])
+    tz_min = case.get("tz_min", 0)
+    if tz_min:
+        # the same alignment instant written in another time zone; update / query timestamps alternate between
+        # that zone and UTC (aware datetimes denote instants)
+        from datetime import timezone as _tz
+
+        align = align.astimezone(_tz(timedelta(minutes=tz_min)))
+        rec.bucket("timestamps-in-mixed-time-zones")
     rec.bucket("container:" + case["container"])
     container = [0.0] * cap if case["container"] == "list" else np.empty(cap)
     if case["container"] == "numpy":
@@ -147,7 +156,12 @@ def check(case: dict[str, Any], rec: Any) -> None:
     qr = random.Random(case["qseed"])
 
     def ts(t: float) -> datetime:
-        return align + timedelta(microseconds=round(t * period * 1e6))
+        r = align + timedelta(microseconds=round(t * period * 1e6))
+        if tz_min and round(t * 10) % 2 == 0:
+            from datetime import timezone as _tz
+
+            r = r.astimezone(_tz.utc)
+        return r
 
     accepted: list[tuple[float, Any]] = []
     interesting = False
